@@ -18,6 +18,10 @@ def blines(r):
     return r["tagged"].get("B", [])
 
 
+FAMILY_TRACE = {"sess": ("TraceSession", "Trace_Session.cfg"), "neg": ("TraceNegotiation", "Trace_Negotiation.cfg"),
+                "comp": ("TraceComponent", "Trace_Component.cfg"), "c08": ("TraceSendPath", "Trace_SendPath.cfg")}
+
+
 def replay_or(ctx, family, trace_module, trace_cfg, full, driver_args=(), **tkw):
     """Common tail: if --replay was given run only that scenario, otherwise run `full`."""
     if ctx.replay:
@@ -26,7 +30,9 @@ def replay_or(ctx, family, trace_module, trace_cfg, full, driver_args=(), **tkw)
             raise Infra("replay file carries no scenario")
         args = []   # generation flags (-burst, -offsets, -variants ...) are not needed: the scenario is concrete
         ctx.seed = ctx.replay.get("seed", ctx.seed)
-        out, nev, _ = vlib.run_driver(ctx, ctx.replay.get("family") or family, scen=[scen], n=0, args=args)
+        fam = ctx.replay.get("family") or family
+        trace_module, trace_cfg = FAMILY_TRACE.get(fam, (trace_module, trace_cfg))   # a check may share traces of several families
+        out, nev, _ = vlib.run_driver(ctx, fam, scen=[scen], n=0, args=args)
         ctx.verdicts += vlib.tlc_trace(ctx, trace_module, trace_cfg, out, nev, **tkw)
         ctx.states = max(ctx.states, 1)
         ctx.transitions = max(ctx.transitions, 1)
@@ -199,6 +205,9 @@ def c05(ctx):
     mcs = [dict(steps=n + 1, maxsend=1, maxh=1, srv="SrvQuick", send="SendOne", sm=True, cut=True)]
     ctx.notes["bounds"] = "all inbound histories of length %d over {msg,pres,iqget,iqset,iqres,iqerr,r,a(h<=1),features} with <=1 user send, SM on and off; all route-goroutine interleavings in the model for length %d" % (n, n + 1)
     session_check(ctx, gens, mcs, nvar=300 if q else 3000, nburst=150 if q else 2000)
+    if not ctx.replay:
+        # the component clause: stanzas routed inline, in arrival order (ComponentSession.tla)
+        comp_run(ctx, [dict(conns=1, maxstz=3 if q else 4, stz=S("msg", "iqres", "iqget", "pres"))])
 
 
 @check("C09")
@@ -207,8 +216,12 @@ def c09(ctx):
     n = 4 if q else 5
     gens = [dict(steps=n, maxsend=1, maxh=1, srv="SrvC09", send="SendA", sm=True, cut=False)]
     mcs = [dict(steps=n + 1, maxsend=1, maxh=1, srv="SrvC09", send="SendA", sm=True, cut=False)]
-    ctx.notes["bounds"] = "all inbound histories of length %d over {msg,pres,iqget,r,a(h<=1),features} plus a user-sent answer, SM on" % n
+    ctx.notes["bounds"] = "all inbound histories of length %d over {msg,pres,iqget,r,a(h<=1),features} plus a user-sent answer, SM on; h of <resume/> over all 3-connection histories with SM offered or not per connection and 0..2 stanzas per session" % n
     session_check(ctx, gens, mcs, nvar=300 if q else 3000, nburst=150 if q else 2000)
+    if not ctx.replay:
+        # the count reported in <resume/>, across connections of one client (Negotiation.tla)
+        base = dict(f1=S("notls"), tlsr=S("proceed"), certs=S("valid"), f2=S("mech"), authr=S("success"), bindr=S("result"), sessr=S("result"))
+        neg_check(ctx, [dict(configs="CfgC11", conns=3 if q else 4, f3=S("bm", "b"), resr=S("resumed", "failed"), enr=S("enabled"), **base)])
 
 
 @check("C10")
@@ -380,3 +393,40 @@ def c14(ctx):
                  authr=S("success"), f3=S("b"), resr=S("resumed"), bindr=S("result"), sessr=S("result"), enr=S("enabled"), mechs="MechAll")]
     ctx.notes["bounds"] = "both credential kinds x 11 server mechanism lists (empty, unknown only, duplicates, both orders, wrong case) x every reply to <auth/>; two connections with independent lists; user names and secrets from byte classes (NUL-adjacent, non-ASCII, XML metacharacters, leading/trailing whitespace, long)"
     neg_check(ctx, gens, driver_args=["-creds"])
+
+
+# ------------------------------------------------------------------ component: C16 (+ component clause of C05)
+def comp_cfg(conns, maxstz, stz, emit=True):
+    return """SPECIFICATION Spec
+CONSTANTS
+  IdClasses = {"plain", "escaped", "nonascii", "long", "absent"}
+  Replies = {"handshake", "err-conflict", "err-host-unknown", "err-not-authorized", "other", "malformed", "close", "streamclose"}
+  MaxConns = %d
+  MaxStz = %d
+  StzKinds = %s
+  Emit = %s
+INVARIANTS C16_EstablishedIffHandshake C16_NothingRoutedUnlessEstablished C05_ComponentInOrder %s
+CHECK_DEADLOCK FALSE
+""" % (conns, maxstz, stz, "TRUE" if emit else "FALSE", "EmitInv" if emit else "")
+
+
+def comp_run(ctx, gens):
+    scen = []
+    for g in gens:
+        r = vlib.tlc_mc(ctx, "ComponentSession", "MC_Component.cfg", cfgtext=comp_cfg(**g))
+        scen += blines(r)
+    if not scen:
+        raise Infra("TLC emitted no behaviours")
+    out, nev, _ = vlib.run_driver(ctx, "comp", scen=scen, timeout=2400)
+    ctx.verdicts += vlib.tlc_trace(ctx, "TraceComponent", "Trace_Component.cfg", out, nev, timeout=1800)
+
+
+@check("C16")
+def c16(ctx):
+    q = ctx.tier == "quick"
+    def full():
+        comp_run(ctx, [dict(conns=2, maxstz=1, stz=S("msg")), dict(conns=1 if q else 3, maxstz=2, stz=S("msg", "iqres"))])
+        ctx.exhaustive = True
+        ctx.notes["bounds"] = "stream id classes {plain, with escaped XML metacharacters, non-ASCII, 320 chars, absent} x replies {handshake, 3 stream errors, unexpected element, malformed, closed, stream close} x 2 (thorough 3) connections on one Component x 4 secrets"
+    replay_or(ctx, "comp", "TraceComponent", "Trace_Component.cfg", full)
+    ctx.assumptions += ["the reference digest is crypto/sha1 + hex of (unescaped stream id + secret) computed in the harness (DESIGN.md section 9)"]
